@@ -25,11 +25,11 @@ Print Assumptions C10_mono_raw.
 
 (** Precision, 1-second intervals, STATED FINITE DOMAIN: for every offset o of the eight blocks
     [lo, lo + 100000), lo in block_starts (8 * 10^5 of the 10^9 offsets, including the first and the
-    last 2 * 10^5 nanoseconds of the second), inside the guard, the round trip is exact to the
-    nanosecond.  Reflection by vm_compute on the primitive-float mirror.  The remaining offsets are
-    swept block-wise in the thorough tier (checks/C10.py) — see notes/C10.md. *)
+    last 2 * 10^5 nanoseconds of the second — since the F1 fix WITHOUT any guard, so the last 5 ns of
+    the second are included), the round trip is exact to the nanosecond.  Reflection by vm_compute on
+    the primitive-float mirror.  More blocks are swept in the thorough tier (checks/C10.py). *)
 Theorem C10_1sec_blocks : forall o, (exists lo, In lo block_starts /\ lo <= o < lo + block) ->
-  guard_1sec_pf o = true -> dec_offset_pf 86400 (enc_pf 86400 o) = o.
+  dec_offset_pf 86400 (enc_pf 86400 o) = o.
 Proof. exact sweep_blocks. Qed.
 Print Assumptions C10_1sec_blocks.
 
@@ -42,43 +42,32 @@ Theorem C10_models_equal : forall start ipd d ticks,
 Proof. intros start ipd d ticks Hi Hd Ht. split; [ apply enc_pf_eq | apply dec_pf_eq ]; assumption. Qed.
 Print Assumptions C10_models_equal.
 
-(** ... hence the block sweep is a statement about the Flocq model, with the guard of the bound theorem *)
+(** ... hence the block sweep is a statement about the Flocq model *)
 Theorem C10_1sec_blocks_flocq : forall o, (exists lo, In lo block_starts /\ lo <= o < lo + block) ->
-  guard_C10 86400 o = true -> dec_offset 86400 (enc 86400 o) = o.
+  dec_offset 86400 (enc 86400 o) = o.
 Proof. exact sweep_blocks_flocq. Qed.
 Print Assumptions C10_1sec_blocks_flocq.
 
 (** Full statement (the property as given): for every timeframe and offset the decoded time lies in
-    the same interval, not after the original and at most one resolution step before it. *)
+    the same interval, not after the original and at most one resolution step before it; exact for
+    1-second intervals.  Before the fix of GetTimeFromTicks (known_findings.txt: fixed, F1) this was
+    REFUTED by the model (1Sec offset 999999999 ns decoded one second late; 1Min 27.000000005 s decoded
+    as 27.999999997 s); the former witnesses are now regression inputs (corpus/C10) on which the
+    statement is evaluated, see C10_regressions.  It is STATED, NOT PROVED in general (partial results
+    below); it is evaluated on every generated case (Corr/C10.model_prop). *)
 Definition C10_full : Prop := forall ipd o, In ipd ipds -> 0 <= o < interval_ns ipd ->
-  let o' := dec_offset ipd (enc ipd o) in 0 <= o' <= o /\ o - o' <= step_ns ipd.
-
-(** [Finding decoded-fraction-rounds-up, F1] 1Sec, offset 999999999 ns: ticks 4294967291 decode to
-    fractionalSeconds 0.99999999907; Round(fs * 1e8) / 1e8 = 1 carries into the seconds while the
-    nanoseconds 999999999 are kept: the decoded time is one second late. *)
-Theorem C10_refuted : ~ C10_full.
-Proof.
-  intros H. destruct (H 86400 999999999 ltac:(cbn; tauto) ltac:(vm_compute; split; [ discriminate | reflexivity ])) as [[_ Hle] _].
-  vm_compute in Hle. apply Hle. reflexivity.
-Qed.
-Print Assumptions C10_refuted.
-
-(** the same defect away from the interval end, 1Min: 27.000000005 s decodes to 27.999999997 s *)
-Theorem C10_refuted_1min : ~ C10_full.
-Proof.
-  intros H. destruct (H 1440 27000000005 ltac:(cbn; tauto) ltac:(vm_compute; split; [ discriminate | reflexivity ])) as [[_ Hle] _].
-  vm_compute in Hle. apply Hle. reflexivity.
-Qed.
-Print Assumptions C10_refuted_1min.
-
-(** The guarded bound for ALL timeframes — stated, NOT proved (partial results below; checked on every
-    generated case by in-Coq evaluation: Corr/C10.model_prop under Corr/C10.in_domain). *)
-Definition C10_bound_guarded : Prop := forall ipd o, In ipd ipds -> 0 <= o < interval_ns ipd ->
-  guard_C10 ipd o = true ->
   let o' := dec_offset ipd (enc ipd o) in
   0 <= o' <= o /\ o - o' <= step_ns ipd /\ (ipd = 86400 -> o' = o).
 
-(** PARTIAL results towards C10_bound_guarded (analytic, for ALL timeframes and ALL offsets; u = 2^-53).
+(** the former refutation witnesses now satisfy the statement *)
+Example C10_regressions :
+  dec_offset 86400 (enc 86400 999999999) = 999999999
+  /\ dec_offset 86400 (enc 86400 999999995) = 999999995
+  /\ (let o' := dec_offset 1440 (enc 1440 27000000005) in 0 <= o' <= 27000000005 /\ 27000000005 - o' <= step_ns 1440)
+  /\ (let o' := dec_offset 8640 (enc 8640 9999999999) in 0 <= o' <= 9999999999 /\ 9999999999 - o' <= step_ns 8640).
+Proof. vm_compute. repeat split; try reflexivity; discriminate. Qed.
+
+(** PARTIAL results towards C10_full (analytic, for ALL timeframes and ALL offsets; u = 2^-53).
 
     Encoder: the tick count is the exact count 2^32 * o / interval truncated, up to a relative error
     of 6u (five roundings plus the representation error of the constant 2^32/86400). *)
@@ -99,19 +88,18 @@ Print Assumptions C10_enc_position_partial.
 (** Decoder, tick -> time direction: the float fractionalSeconds of GetTimeFromTicks is the exact
     position of the tick (in seconds) up to a relative error of 4u, for every intervalsPerDay <= 2^17
     and every uint32 tick count.  (The extraction of (sec, nanosec) from it — Floor, the 1e8 rounding
-    that causes F1, the +0.5 truncation — is NOT covered: that is what C10_bound_guarded still lacks.) *)
+    +0.5 truncation and the carry — is NOT covered: that is what C10_full still lacks.) *)
 Theorem C10_dec_fs_accuracy_partial : forall ipd k, (1 <= ipd <= 2 ^ 17)%Z -> (0 <= k < 2 ^ 32)%Z ->
   let p := (IZR k / tps_exact ipd)%R in
   ((1 - 4 * u) * p <= B2R (dec_fs ipd k) <= (1 + 4 * u) * p)%R.
 Proof. exact dec_fs_accuracy. Qed.
 Print Assumptions C10_dec_fs_accuracy_partial.
 
-(** Non-vacuity: an offset in a swept block inside the guard; and the guard of the general bound *)
+(** Non-vacuity: an offset in a swept block (one of the last 5 ns of the second), and an in-range offset of 1Min *)
 Example C10_nonvacuous :
-  (exists lo, In lo block_starts /\ lo <= 499999999 < lo + block) /\ guard_1sec_pf 499999999 = true
-  /\ guard_C10 1440 31415926535 = true /\ In 1440 ipds /\ 0 <= 31415926535 < interval_ns 1440.
+  (exists lo, In lo block_starts /\ lo <= 999999997 < lo + block)
+  /\ In 1440 ipds /\ 0 <= 31415926535 < interval_ns 1440.
 Proof.
-  split; [ exists 499950000; split; [ cbn; tauto | vm_compute; split; [ discriminate | reflexivity ] ] | ].
-  split; [ vm_compute; reflexivity | ]. split; [ vm_compute; reflexivity | ].
+  split; [ exists 999900000; split; [ cbn; tauto | vm_compute; split; [ discriminate | reflexivity ] ] | ].
   split; [ cbn; tauto | vm_compute; split; [ discriminate | reflexivity ] ].
 Qed.
